@@ -23,6 +23,9 @@ structure Session where
 /-- the salt is an `int64` -/
 def Session.SaltInRange (s : Session) : Prop := -(2 ^ 63 : Int) ≤ s.salt ∧ s.salt < (2 ^ 63 : Int)
 
+instance (s : Session) : Decidable s.SaltInRange := by
+  unfold Session.SaltInRange; exact inferInstance
+
 /-- `tokenStorageFormat.writeSession` -/
 def writeFields (s : Session) : Fields :=
   { key := b64Encode s.key, hash := b64Encode s.hash, salt := encodeSalt s.salt, hostname := s.hostname }
